@@ -7,6 +7,7 @@ import random
 from . import qprops
 from .codec import plain
 from .core import Plugin
+from . import smallscope as ss
 from .plug_mutate import case_strings, fold_table
 
 OPS = ["chain", "get_subconverter", "remap_curie_prefixes", "remap_uri_prefixes", "rewire"]
@@ -149,6 +150,28 @@ class C09(DerivePlugin):
                 strs, pairs = self.probes(rng, inputs)
             yield [inputs, op, strs, pairs, []]
 
+    explanation = ("small-scope block: chain of every ordered pair of converters holding at most one record over the universe {a, A, b} x "
+                   "{h/, h/a, k#} (one optional synonym on each side) in both case modes, and get_subconverter of every converter of at most two "
+                   "such records for every subset of the names {a, A, b, zz}; the thorough tier runs the whole block (exhaustive=true refers to "
+                   "that block only), the quick tier a fixed sample of it")
+
+    def exhaustive(self, tier):
+        recs = ss.records()
+        strs, pairs = ss.probes(ss.P3, ss.U3)
+        one = [[]] + [[r] for r in recs]
+        cases = []
+        for c1 in one:
+            for c2 in one:
+                for sens in (0, 1):
+                    cases.append([[c1, c2], [0, sens], strs, pairs, []])
+        names = ss.P3 + ["zz"]
+        subsets = [[n for j, n in enumerate(names) if m >> j & 1] for m in range(1 << len(names))]
+        for conv in ss.converters(ss.records(usyn=False), 2):
+            for P in subsets:
+                cases.append([[conv], [1, P], strs, pairs, []])
+        self.exhaustive_flag = tier == "thorough"
+        return ss.block(cases, tier, 400)
+
     def nontrivial(self, case, obs):
         inputs, op = case[0], case[1]
         if op[0] == 0:
@@ -254,6 +277,33 @@ class C11(DerivePlugin):
             strs, pairs = self.probes(rng, [recs], [b for _, b in m] + [a for a, _ in m])
             yield [[recs], [2, m], strs, pairs, []]
 
+    explanation = ("small-scope block: every converter of at most two records over the CURIE prefixes {a, A, b} (one optional synonym each) with "
+                   "every remapping dictionary of at most two entries over {a, A, b, x} (every key order), and the three-record converter a, A, b "
+                   "with every remapping of at most three entries; the thorough tier runs the whole block (exhaustive=true refers to that block "
+                   "only), the quick tier a fixed sample of it")
+
+    def exhaustive(self, tier):
+        names = ss.P3 + ["x"]
+        strs, pairs = ss.probes(names, ss.U3)
+        recs = ss.records(us=["h/"], usyn=False)
+        convs = []
+        for conv in ss.converters(recs, 1):
+            convs.append(conv)
+        # two records get two different URI prefixes
+        import itertools as it
+        for r1, r2 in it.combinations(recs, 2):
+            if not ({r1[0], *r1[2]} & {r2[0], *r2[2]}):
+                convs.append([r1, [r2[0], "k#", r2[2], [], None]])
+        cases = []
+        for conv in convs:
+            for m in ss.dicts(names, names, 2):
+                cases.append([[conv], [2, m], strs, pairs, []])
+        three = [["a", "h/", [], [], None], ["A", "h/a", [], [], None], ["b", "k#", [], [], None]]
+        for m in ss.dicts(names, names, 3):
+            cases.append([[three], [2, m], strs, pairs, []])
+        self.exhaustive_flag = tier == "thorough"
+        return ss.block(cases, tier, 500)
+
     def nontrivial(self, case, obs):
         m = case[1][1]
         recs = case[0][0]
@@ -309,6 +359,29 @@ class C12(DerivePlugin):
             strs, pairs = self.probes(rng, [recs])
             strs += [b + "1" for _, b in m][:3]
             yield [[recs], [4 if by_curie else 3, m], list(dict.fromkeys(strs)), pairs, []]
+
+    explanation = ("small-scope block: every converter of at most two records over the URI prefixes {h/, h/a, k#} (one optional URI-prefix "
+                   "synonym each, CURIE prefixes a and b, b with the synonym A) with every mapping of at most two entries, old URI prefix -> new "
+                   "URI prefix over {h/, h/a, k#, n/} (remap_uri_prefixes) and CURIE prefix -> new URI prefix over {a, A, b, x} x {h/, h/a, k#, n/} "
+                   "(rewire); the thorough tier runs the whole block (exhaustive=true refers to that block only), the quick tier a fixed sample")
+
+    def exhaustive(self, tier):
+        import itertools as it
+        uris = ss.U3 + ["n/"]
+        strs, pairs = ss.probes(ss.P3, uris)
+        urecs = ss.records(ps=["a"], psyn=False)
+        convs = [[r] for r in urecs]
+        for r1, r2 in it.combinations(urecs, 2):
+            if not ({r1[1], *r1[3]} & {r2[1], *r2[3]}):
+                convs.append([r1, ["b", r2[1], ["A"], r2[3], None]])
+        cases = []
+        for conv in convs:
+            for m in ss.dicts(uris, uris, 2):
+                cases.append([[conv], [3, m], strs, pairs, []])
+            for m in ss.dicts(ss.P3 + ["x"], uris, 2):
+                cases.append([[conv], [4, m], strs, pairs, []])
+        self.exhaustive_flag = tier == "thorough"
+        return ss.block(cases, tier, 500)
 
     def nontrivial(self, case, obs):
         m = case[1][1]
